@@ -31,9 +31,9 @@ static void check(long id, const Mat& M, const std::vector<double>& expected) {
   std::vector<double> c = comps_from_matrix(M);
   double scale = std::max(1.0, maxabs(M) * d);
   // ordered, unordered, ordered again on the same operator: the answer to one call must not depend on the previous one
-  static const int ORDERS[3] = {1, 0, 1};
+  static const int ORDERS[2][3] = {{1, 0, 1}, {0, 1, 0}};
   for (int oi = 0; oi < 3; oi++) {
-    int order = ORDERS[oi];
+    int order = ORDERS[(id % 2 + 2) % 2][oi];
     ncalls++;
     try {
       SU_vector v(d);
